@@ -99,7 +99,7 @@ LexIpItem(s) ==
   ELSE IF dd > 0
   THEN LET f == Addr(Sub(ch, 1, dd - 1)) t == Addr(Sub(ch, dd + 2, n)) IN
        IF f.ok /\ t.ok /\ Len(f.v) = Len(t.v) /\ LexCmp(f.v, t.v) <= 0
-       THEN [ok |-> "yes", v |-> Item(f.v, t.v, 0), n |-> n] ELSE [ok |-> "no"]
+       THEN [ok |-> "yes", v |-> Item(f.v, t.v, -1), n |-> n] ELSE [ok |-> "no"]     \* len = -1 marks an explicit range
   ELSE LET at == IF sl = 0 THEN ch ELSE Sub(ch, 1, sl - 1)
            lt == Sub(ch, sl + 1, n)
            a == Addr(at)
